@@ -6,7 +6,7 @@ from pathlib import Path
 from common import (Model, ModelError, VERIF, EVIDENCE_DIR, REPLAY_DIR, CORPUS_DIR, KNOWN_FINDINGS,
                     derive_seed, CaseTimeout, with_timeout)
 
-CASE_TIMEOUT_S = 20.0     # SIGALRM limit per case (retried once with a five-fold limit)
+CASE_TIMEOUT_S = 15.0     # SIGALRM limit per case (retried once with a five-fold limit)
 
 
 class Finding:
@@ -55,7 +55,7 @@ def _run_case(sl, case, model, timeout=CASE_TIMEOUT_S):
     except CaseTimeout:
         model.close()
         try:   # one retry with a ten-fold limit before calling it a hang
-            return with_timeout(timeout * 5, sl.run, case, model)
+            return with_timeout(timeout * 3, sl.run, case, model)
         except CaseTimeout:
             model.close()
             return ([("disagreement", "case timed out twice (implementation or model hangs)")], ["timeout"])
@@ -63,7 +63,7 @@ def _run_case(sl, case, model, timeout=CASE_TIMEOUT_S):
         return ([("disagreement", "model error: " + str(e)[:500])], ["model-error"])
 
 
-HANG_LIMIT_S = 150.0          # a worker that makes no progress for this long is killed (C-level hangs ignore SIGALRM)
+HANG_LIMIT_S = 75.0           # a worker that makes no progress for this long is killed (C-level hangs ignore SIGALRM)
 
 
 def _worker_proc(sl, seed, items, tier, explicit, q, progress):
@@ -212,6 +212,13 @@ def run_slice(sl: Slice, seed: int, n: int, tier: str, procs: int, cases=None):
                 tot["findings"].append(("violation" if getattr(sl, "hang_is_violation", False) else "disagreement", case,
                                         f"case did not terminate within {HANG_LIMIT_S:.0f} s and could not be interrupted (killed by the watchdog)"))
                 rest = items[pos + 1:]
+                if tot["classes"]["hang"] >= 2:
+                    # two cases that cannot be interrupted are evidence enough: stop this slice
+                    for p2, _, _ in workers:
+                        p2.terminate()
+                    workers.clear()
+                    tot["classes"]["stopped-after-hangs"] = 1
+                    return tot
                 if rest:
                     spawn(rest)
                 else:
@@ -263,23 +270,39 @@ def build_leg():
 
 
 def proof_leg(prop: str):
-    """facts about Props/<prop>.v: theorem count, compiled, gate, Print Assumptions output"""
-    pf = COQ_DIR / "theories" / "Props" / f"{prop}.v"
-    info = {"file": str(pf), "obligations": 0, "discharged": 0, "gate_hits": [], "assumptions": "",
-            "theorems": [], "ok": False, "problems": []}
-    if not pf.exists():
+    """facts about Props/<prop>*.v (e.g. C02.v and C02Refine.v): theorem count, compiled, gate, Print Assumptions output"""
+    pdir = COQ_DIR / "theories" / "Props"
+    files = sorted(f for f in pdir.glob(f"{prop}*.v") if re.fullmatch(prop + r"[A-Za-z]*", f.stem))
+    info = {"file": ", ".join(str(f) for f in files) or str(pdir / f"{prop}.v"), "obligations": 0, "discharged": 0, "gate_hits": [],
+            "assumptions": "", "theorems": [], "ok": False, "problems": []}
+    if not files:
         info["problems"].append("property theorem file missing")
         return info
-    src = pf.read_text()
-    # strip comments before counting / gating
-    nocom = re.sub(r"\(\*.*?\*\)", "", src, flags=re.S)
-    thms = re.findall(r"^\s*(?:Theorem|Corollary)\s+(\w+)", nocom, flags=re.M)
-    info["theorems"] = thms
-    info["obligations"] = len(thms)
-    vo = pf.with_suffix(".vo")
-    compiled = vo.exists() and vo.stat().st_mtime >= pf.stat().st_mtime
-    if not compiled:
-        info["problems"].append("Props file not compiled (proof leg broken)")
+    listed = (COQ_DIR / "_CoqProject").read_text()
+    compiled = True
+    closed = 0
+    for pf in files:
+        src = pf.read_text()
+        nocom = re.sub(r"\(\*.*?\*\)", "", src, flags=re.S)      # strip comments before counting / gating
+        thms = re.findall(r"^\s*(?:Theorem|Corollary)\s+(\w+)", nocom, flags=re.M)
+        info["theorems"] += thms
+        if f"theories/Props/{pf.name}" not in listed:
+            info["problems"].append(f"{pf.name} is not part of the build (_CoqProject)")
+        vo = pf.with_suffix(".vo")
+        if not (vo.exists() and vo.stat().st_mtime >= pf.stat().st_mtime):
+            compiled = False
+            info["problems"].append(f"{pf.name} not compiled (proof leg broken)")
+        af = COQ_DIR / "assumptions" / f"{pf.stem}.txt"
+        if af.exists():
+            txt = af.read_text()
+            info["assumptions"] += f"--- {pf.name}\n" + txt
+            closed += txt.count("Closed under the global context")
+            if "Axioms:" in txt or "Admitted" in txt:
+                info["problems"].append(f"{pf.name}: Print Assumptions reports axioms")
+        else:
+            info["problems"].append(f"Print Assumptions capture missing for {pf.name}")
+    info["obligations"] = len(info["theorems"])
+    info["closed_theorems"] = closed
     # gate over the whole development
     for f in sorted((COQ_DIR / "theories").rglob("*.v")):
         txt = re.sub(r"\(\*.*?\*\)", "", f.read_text(), flags=re.S)
@@ -287,14 +310,7 @@ def proof_leg(prop: str):
             info["gate_hits"].append(f"{f.name}:{m.group(1)}")
     if info["gate_hits"]:
         info["problems"].append("forbidden construct: " + ", ".join(info["gate_hits"][:5]))
-    af = COQ_DIR / "assumptions" / f"{prop}.txt"
-    if af.exists():
-        info["assumptions"] = af.read_text()
-        closed = info["assumptions"].count("Closed under the global context")
-        info["closed_theorems"] = closed
-    else:
-        info["problems"].append("Print Assumptions capture missing")
-    info["discharged"] = len(thms) if compiled and not info["gate_hits"] else 0
+    info["discharged"] = info["obligations"] if compiled and not info["gate_hits"] else 0
     info["ok"] = not info["problems"] and info["obligations"] > 0
     return info
 
@@ -302,7 +318,9 @@ def proof_leg(prop: str):
 def coqchk_leg(prop: str, timeout=2400):
     """independent re-check of the property's compiled closure with coqchk (thorough tier)"""
     try:
-        r = subprocess.run(["coqchk", "-silent", "-o", "-Q", "theories", "ArchSim", f"ArchSim.Props.{prop}"],
+        mods = [f"ArchSim.Props.{f.stem}" for f in sorted((COQ_DIR / "theories" / "Props").glob(f"{prop}*.v"))
+                if re.fullmatch(prop + r"[A-Za-z]*", f.stem)]
+        r = subprocess.run(["coqchk", "-silent", "-o", "-Q", "theories", "ArchSim"] + mods,
                            cwd=str(COQ_DIR), capture_output=True, text=True, timeout=timeout)
         out = (r.stdout + r.stderr)
         tail = out[-1500:]
